@@ -17,6 +17,19 @@ def gen(ctx):
     yield dict(kind="sp", hist=[[[4, 0, 0], [0, 5, 0], [0, 0, 9]]], closed=0, grains=[], T=4, dtype="int32")
     yield dict(kind="sp", hist=[[[7, 3, 9, 4]]], closed=0, grains=[], T=5, dtype="int32")
     yield dict(kind="sp", hist=[[[7], [3], [12]]], closed=0, grains=[], T=5, dtype="int32")
+    for _ in range(ctx.n(80, 800)):
+        # the drive-and-relax loop: ONE Sandpile object, grains added between successive evolutions
+        R, C = rng.randint(3, 6), rng.randint(3, 6)
+        closed = int(rng.random() < 0.5)
+        g = [[rng.randint(0, 3) for _ in range(C)] for _ in range(R)]
+        if closed:
+            g = [[0 if (i in (0, R - 1) or j in (0, C - 1)) else g[i][j] for j in range(C)] for i in range(R)]
+        interior = [(i, j) for i in range(R) for j in range(C) if not (closed and (i in (0, R - 1) or j in (0, C - 1)))]
+        rounds = []
+        for _ in range(rng.randint(2, 4)):
+            T = rng.randint(2, 4)
+            rounds.append(dict(T=T, grains=[[*rng.choice(interior), rng.randint(1, T - 1)] for _ in range(rng.randint(0, 2))]))
+        yield dict(kind="reuse", grid=g, closed=closed, rounds=rounds, same_start=int(rng.random() < 0.5))
     for _ in range(ctx.n(500, 5000)):
         R = rng.choice([1, 1, 2, 2, 3, 4, 5, 6, 7])
         C = rng.choice([1, 2, 3, 3, 4, 5, 6, 7])
@@ -41,6 +54,8 @@ def gen(ctx):
 
 
 def line(c):
+    if c["kind"] == "reuse":
+        return None
     return "sandpile hist=%s closed=%d grains=%s T=%d mode=plain" % (fmt.hist(c["hist"]), c["closed"], fmt.mat(c["grains"]), c["T"])
 
 
@@ -58,6 +73,8 @@ def run(c):
 
 
 def impl(c):
+    if c["kind"] == "reuse":
+        return "n/a"
     res, exc, sp = run(c)
     if exc is not None:
         return fmt.err(exc)
@@ -76,7 +93,38 @@ def btw(g, closed):
     return new
 
 
+def oracle_reuse(c):
+    """All grains ever added stay scheduled (by their step number within each evolution): each round must equal
+    the BTW reference with every grain added so far."""
+    import cellpylib as cpl
+    g0 = np.array([c["grid"]], dtype=np.int32)
+    R, C = g0.shape[1], g0.shape[2]
+    sp = cpl.Sandpile(R, C, is_closed_boundary=bool(c["closed"]))
+    closed = bool(c["closed"])
+    sched = []
+    cur = g0
+    for ri, rd in enumerate(c["rounds"]):
+        for (i, j, t) in rd["grains"]:
+            sp.add_grain((i, j), t)
+            sched.append((i, j, t))
+        start = g0 if c["same_start"] else cur[-1:]
+        res = cpl.evolve2d(start.copy(), timesteps=rd["T"], apply_rule=sp, r=1, neighbourhood="von Neumann")
+        ref = np.array(start[0], dtype=np.int64)
+        for t in range(1, rd["T"]):
+            nxt = btw(ref, closed)
+            for (i, j, tt) in sched:
+                if tt == t:
+                    nxt[i, j] = ref[i, j] + 1
+            if not np.array_equal(nxt, res[t]):
+                return "evolution %d with a reused Sandpile object: step %d differs from BTW + the grains scheduled so far %s" % (ri + 1, t, sched)
+            ref = nxt
+        cur = res
+    return None
+
+
 def oracle(c):
+    if c["kind"] == "reuse":
+        return oracle_reuse(c)
     res, exc, sp = run(c)
     if exc is not None:
         return "raised %s" % type(exc).__name__
@@ -113,11 +161,18 @@ def oracle(c):
 
 
 def nontrivial(c, ans):
+    if c["kind"] == "reuse":
+        return sum(len(r["grains"]) for r in c["rounds"]) >= 1
     g = c["hist"][-1]
     return ans.startswith("ok") and c["T"] >= 2 and (any(x >= 4 for r in g for x in r) or len(c["grains"]) > 0)
 
 
 def shrink(c):
+    if c["kind"] == "reuse":
+        for i in range(len(c["rounds"])):
+            if len(c["rounds"]) > 1:
+                yield dict(c, rounds=c["rounds"][:i] + c["rounds"][i + 1:])
+        return
     if c["T"] > 2:
         yield dict(c, T=c["T"] - 1, grains=[g for g in c["grains"] if g[2] < c["T"] - 1])
     if len(c["hist"]) > 1:
